@@ -307,6 +307,18 @@ impl HttpApp {
             .map_err(|e| format!("bad uri {:?}: {e}", r.uri))?;
         let mut tr = test::TestRequest::default().method(method).uri(&uri.to_string());
         for (k, v) in &r.headers {
+            // pseudo-header of the harness: the protocol version on the request line
+            if k == ":version" {
+                use actix_web::http::Version;
+                tr = tr.version(match v.as_slice() {
+                    b"0.9" => Version::HTTP_09,
+                    b"1.0" => Version::HTTP_10,
+                    b"2" => Version::HTTP_2,
+                    b"3" => Version::HTTP_3,
+                    _ => Version::HTTP_11,
+                });
+                continue;
+            }
             let name =
                 HeaderName::from_bytes(k.as_bytes()).map_err(|e| format!("bad header name: {e}"))?;
             let val = HeaderValue::from_bytes(v).map_err(|e| format!("bad header value: {e}"))?;
